@@ -12,6 +12,10 @@
                        quota is used up: unbounded -> nothing is left, Some l -> at least l normal non-cancelled entries
                        were popped (quota_ok; the quota is soft: a second Take may overshoot it).  Whatever is not
                        popped STAYS in the builder for the next round.
+     XWake             fix 7ad2a8a: fetchAllPendingRequests returns on its retry timer because the builder is not empty --
+                       the send loop goes on to getClientAndSend with the leftover entries although no request arrived.
+                       (The send loop only builds when it is `ready`: after a request arrived (XFetch) or after XWake;
+                       a round puts it back to waiting.)
      XClean            reqBuilder.reset -> PriorityQueue.clean: cancelled entries leave the builder
      XNoConn           reqBuilder.cancel ("no available connections"): every entry in the builder is failed
      XSendExit         batchSendLoop returns (closed, builder empty): failQueuedAsyncRequestsOnClose drains
@@ -30,7 +34,8 @@ Record sys := mkSys {
   inb : list caller;          (* batchCommandsBuilder.entries *)
   pri : caller -> nat;        (* batchCommandsEntry.pri *)
   asy : caller -> bool;       (* entry.cb != nil *)
-  sendloop : bool             (* batchSendLoop is running *)
+  sendloop : bool;            (* batchSendLoop is running *)
+  ready : bool                (* ... and past fetchAllPendingRequests: it goes on to getClientAndSend *)
 }.
 
 Inductive xlabel :=
@@ -40,6 +45,7 @@ Inductive xlabel :=
 | XClean
 | XNoConn
 | XSendExit
+| XWake
 | XCore (l : label).
 
 Definition high_pri : nat := 10.
@@ -88,53 +94,56 @@ Definition core_allowed (x : sys) (l : label) : bool :=
   | _ => true
   end.
 
-Definition with_core (x : sys) (st : state) : sys := mkSys st (chq x) (inb x) (pri x) (asy x) (sendloop x).
+Definition with_core (x : sys) (st : state) : sys := mkSys st (chq x) (inb x) (pri x) (asy x) (sendloop x) (ready x).
 Definition remove_c (c : caller) (l : list caller) : list caller := filter (fun c' => negb (Nat.eqb c' c)) l.
 (* the async entries failQueuedAsyncRequestsOnClose finds in the channel *)
 Definition drained (x : sys) : list caller :=
   filter (fun c => asy x c && is_queued (e_st (ent (core x) c))) (chq x).
 
 Definition round_guard (x : sys) (lim : option nat) (takes : list caller) : bool :=
-  sendloop x && round_ok (pri x) (inb x) takes && quota_ok lim (ent (core x)) (pri x) (inb x) takes.
+  sendloop x && ready x && round_ok (pri x) (inb x) takes && quota_ok lim (ent (core x)) (pri x) (inb x) takes.
 
 Definition xstep (x : sys) (l : xlabel) : option sys :=
   match l with
   | XSubmit c h p a =>
       match step (core x) (Submit c h) with
-      | Some st => Some (mkSys st (c :: chq x) (inb x) (updn (pri x) c p) (updb (asy x) c a) (sendloop x))
+      | Some st => Some (mkSys st (c :: chq x) (inb x) (updn (pri x) c p) (updb (asy x) c a) (sendloop x) (ready x))
       | None => None
       end
   | XFetch c =>
       if sendloop x && memb c (chq x) && negb (memb c (inb x)) && is_queued (e_st (ent (core x) c))
-      then Some (mkSys (core x) (remove_c c (chq x)) (c :: inb x) (pri x) (asy x) (sendloop x)) else None
+      then Some (mkSys (core x) (remove_c c (chq x)) (c :: inb x) (pri x) (asy x) (sendloop x) true) else None
   | XBuildRound lim takes =>
       if round_guard x lim takes then
         match run (core x) (build_labels (ent (core x)) (next_id (core x)) takes) with
-        | Some st => Some (mkSys st (chq x) (filter (fun c => negb (memb c takes)) (inb x)) (pri x) (asy x) (sendloop x))
+        | Some st => Some (mkSys st (chq x) (filter (fun c => negb (memb c takes)) (inb x)) (pri x) (asy x) (sendloop x) false)
         | None => None
         end
       else None
   | XClean =>
       if sendloop x then
         match run (core x) (map DropCanceled (filter (fun c => e_canceled (ent (core x) c)) (inb x))) with
-        | Some st => Some (mkSys st (chq x) (filter (fun c => negb (e_canceled (ent (core x) c))) (inb x)) (pri x) (asy x) (sendloop x))
+        | Some st => Some (mkSys st (chq x) (filter (fun c => negb (e_canceled (ent (core x) c))) (inb x)) (pri x) (asy x) (sendloop x) (ready x))
         | None => None
         end
       else None
   | XNoConn =>
       if sendloop x then
         match run (core x) (map NoConn (inb x)) with
-        | Some st => Some (mkSys st (chq x) [] (pri x) (asy x) (sendloop x))
+        | Some st => Some (mkSys st (chq x) [] (pri x) (asy x) (sendloop x) (ready x))
         | None => None
         end
       else None
   | XSendExit =>
       if sendloop x && closed (core x) && match inb x with [] => true | _ => false end
       then match run (core x) (map QueueFail (drained x)) with
-           | Some st => Some (mkSys st [] (inb x) (pri x) (asy x) false)
+           | Some st => Some (mkSys st [] (inb x) (pri x) (asy x) false false)
            | None => None
            end
       else None
+  | XWake =>
+      if sendloop x && match inb x with [] => false | _ => true end
+      then Some (mkSys (core x) (chq x) (inb x) (pri x) (asy x) (sendloop x) true) else None
   | XCore l0 =>
       if core_allowed x l0 then
         match step (core x) l0 with Some st => Some (with_core x st) | None => None end
@@ -147,7 +156,7 @@ Fixpoint xrun (x : sys) (ls : list xlabel) : option sys :=
   | l :: r => match xstep x l with Some x' => xrun x' r | None => None end
   end.
 
-Definition xinit : sys := mkSys init [] [] (fun _ => 0) (fun _ => false) true.
+Definition xinit : sys := mkSys init [] [] (fun _ => 0) (fun _ => false) true false.
 Definition xreach (x : sys) : Prop := exists ls, xrun xinit ls = Some x.
 
 (* ---- the non-batch path: sendRequest -> tikvrpc.CallRPC (one unary gRPC call per request, context with the
